@@ -292,6 +292,12 @@ func alphabet(n int, full bool) []alphaItem {
 	add("event_signing_start", "signStart", hs(""), "0", T(7), "1", hs("m1"), hs("f"), "x6d", "0", "0")
 	// an explicit but empty (non-nil) payload next to a range: must stay an explicit payload
 	add("event_signing_start", "signStart", hs("C"), "0", T(7), "2", hs("e1"), hs("f e"), "x", "0", "2", hs("r1"), hs(""), "-", "1", "3")
+	// several baked-range tasks in one batch: with a gap, contiguous / overlapping, around an explicit payload
+	add("event_signing_start", "signStart", hs("D"), "0", T(7), "2", hs("r1"), hs(""), "-", "10", "13", hs("r2"), hs(""), "-", "20", "22")
+	if full {
+		add("event_signing_start", "signStart", hs("E"), "0", T(7), "3", hs("r1"), hs(""), "-", "3", "5", hs("r2"), hs(""), "-", "5", "7", hs("r3"), hs(""), "-", "6", "9")
+		add("event_signing_start", "signStart", hs("F"), "0", T(7), "3", hs("r1"), hs(""), "-", "30", "31", hs("p"), hs("f"), "x01", "0", "0", hs("r2"), hs(""), "-", "40", "42")
+	}
 	add("event_signing_restart", "default", T(9))
 	// wrong request type, internal and unknown events
 	add("event_dkg_commit_confirm_received", "sigPart", "0", T(2))
